@@ -4,6 +4,7 @@ import (
 	"fmt"
 	"os"
 	"reflect"
+	"regexp"
 	"strings"
 	"testing"
 
@@ -13,10 +14,12 @@ import (
 	"pgregory.net/rapid"
 
 	"verif/h/am"
+	"verif/h/corpus"
 	"verif/h/emit"
 	"verif/h/gen"
 	"verif/h/hx"
 	"verif/h/lx"
+	"verif/h/mut"
 )
 
 func TestMain(m *testing.M) { hx.Main(m, "C15", nil) }
@@ -316,6 +319,89 @@ func checkModule(t hx.TB, test string, m *am.Module, im *ir.Module, how string) 
 			}
 		}
 	}
+}
+
+var reLabelUse = regexp.MustCompile(`label (%"[^"]*"|%[-a-zA-Z$._0-9]+)`)
+
+// checkParsed applies the operand and successor checks to every instruction and terminator of a module
+// parsed from external text. The expected successors are read off the terminator's own printed form
+// (`label %x` tokens, in order), which is independent of Succs().
+func checkParsed(t hx.TB, test, src, x string, pm *ir.Module) {
+	ctx := "; source: " + src + "\n" + x
+	for _, f := range pm.Funcs {
+		byIdent := map[string]*ir.Block{}
+		for _, b := range f.Blocks {
+			byIdent[b.Ident()] = b
+		}
+		for bi, b := range f.Blocks {
+			for ii, in := range b.Insts {
+				if u, ok := in.(user); ok {
+					checkUser(t, test, fmt.Sprintf("parsed %s block %d inst %d", f.Ident(), bi, ii), ctx, u)
+					hx.Eval(1)
+					hx.Hist("kind/" + strings.TrimPrefix(fmt.Sprintf("%T", in), "*ir."))
+				}
+			}
+			u, ok := b.Term.(user)
+			if !ok {
+				continue
+			}
+			where := fmt.Sprintf("parsed %s block %d terminator", f.Ident(), bi)
+			checkUser(t, test, where, ctx, u)
+			var text string
+			if p := lx.Guard(func() { text = u.LLString() }); p != nil {
+				continue
+			}
+			var want []*ir.Block
+			okAll := true
+			for _, m := range reLabelUse.FindAllStringSubmatch(text, -1) {
+				tb, ok := byIdent[m[1]]
+				if !ok {
+					okAll = false
+				}
+				want = append(want, tb)
+			}
+			if okAll {
+				checkSuccs(t, test, where, ctx, b.Term, want, f)
+			}
+			hx.Eval(1)
+			hx.Hist("kind/" + strings.TrimPrefix(fmt.Sprintf("%T", b.Term), "*ir."))
+		}
+	}
+}
+
+func TestExternalCorpus(t *testing.T) {
+	const test = "ExternalCorpus"
+	hx.Rule(test, "every instruction and terminator of real compiler output (clang-14 over corpus/src x flag sets; quick: every second case) and of rapid-mutated corpus texts that llvm-as and the parser accept: same completeness, liveness and exactness checks; successors must equal the `label` targets of the terminator's own printed form, in order")
+	for i, c := range corpus.ClangCases() {
+		if !hx.Mine(i) || !hx.Thorough() && i%2 != 0 {
+			continue
+		}
+		x := c.Text()
+		if x == "" || len(x) > 300<<10 {
+			hx.Discard("clang_rejects_combination_or_too_large")
+			continue
+		}
+		pm, err, p := lx.Parse(x)
+		if err != nil || p != nil {
+			hx.Discard("parser_does_not_accept(judged_by_C01)")
+			continue
+		}
+		checkParsed(t, test, "clang-14 "+c.Name(), x, pm)
+		hx.NonTrivial("clang/" + c.Name())
+	}
+	hx.Check(t, test, hx.N(30, 1500), func(rt *rapid.T) {
+		x, desc, ok := mut.Valid(rt)
+		if !ok {
+			hx.Discard("mutated_text_not_valid_or_not_accepted")
+			return
+		}
+		pm, err, p := lx.Parse(x)
+		if err != nil || p != nil {
+			return
+		}
+		checkParsed(rt, test, desc, x, pm)
+		hx.NonTrivial(x)
+	})
 }
 
 func TestOperandsAndSuccessors(t *testing.T) {
